@@ -310,7 +310,7 @@ func RunAtomicProgram(p *Program) *Result {
 			oldPull = append(oldPull, "unbuildable")
 		}
 	}
-	w.Clock.Advance(2 * time.Second) // the probes' leases (1s) are over
+	w.Clock.Advance(2 * time.Second)                   // the probes' leases (1s) are over
 	w.stock(len(sys.PullProbes)+1, &spec, sys.NewSpec) // each probe takes one message (batch 1)
 	if err := os.WriteFile(w.cfgPath, []byte(sys.NewSpec.Render()), 0o600); err != nil {
 		w.Res.Trouble = err.Error()
